@@ -1,7 +1,15 @@
 """C09: FLV files written are read back identically and follow the FLV layout (spec/flv/FlvFile.tla)."""
+import json
 import os
+import re
 
 from lib import vlib
+
+
+def sweep_constants(cfg_path):
+    """The integer constants of a Gen_FlvSweep cfg (the expected number of files is computed from them)."""
+    txt = open(cfg_path).read()
+    return {m.group(1): int(m.group(2)) for m in re.finditer(r"^\s*(\w+)\s*=\s*(\d+)\s*$", txt, re.M)}
 
 
 def run(ctx):
@@ -13,7 +21,12 @@ def run(ctx):
                 "timestamps), empty, sizes (every size sequence of length 2..3, thorough ..4, x 6 type/timestamp/flag "
                 "assignments), ts (every timestamp sequence of length 2..3), 2^24-1 bodies (2 files, thorough 44); thorough: seeded random "
                 "6-tag files; a file is distinct if its JSON differs; each is replayed under 3 read segmentations for the "
-                "library-written and the specification-written bytes. GEN schedules: seeded random walks of the state machine "
+                "library-written and the specification-written bytes. GEN sweep (implementation boundaries: fast paths, "
+                "scratch and buffered-io blocks): one file for EVERY body size 0..12352 (thorough 0..70000), the tag under "
+                "test followed by a small tag of another type (and, up to 4160 / 12352 bytes, also preceded by one), all 4 "
+                "flag combinations up to 300 bytes, type/timestamp/flags rotating with the size; same replay as the files. "
+                "MC sweep: every body size 0..20 in all interleavings; two scratch-buffer deviations (wrong for 4 sizes "
+                "only) must be reported. GEN schedules: seeded random walks of the state machine "
                 "(<= 5 tags), each step replayed against the library.")
     ctx.exhaustive = True
     ctx.assumptions += [
@@ -21,6 +34,10 @@ def run(ctx):
         "the writer side is an io.Writer that accepts every write completely; failing or short writes/reads are C08",
         "read segmentations: whole, 1 byte per Read, seeded random sizes 1..128 KiB (files), model-chosen segments (schedules)",
         "after the last tag the demuxer must return an EOF-class error (io.EOF / io.ErrUnexpectedEOF) and no tag",
+        "dense size sweep up to 12352 (quick) / 70000 (thorough) bytes only: an implementation boundary above it is seen only if it "
+        "coincides with a matrix value (65535, 65536, 2^24-1) or a random size of the thorough simulation (<= 200000)",
+        "the sweep's files are replayed on up to 8 goroutines (closed experiments: own muxer, demuxer, writer, reader), without the "
+        "second pass in the same process that the other file stage has",
         "the independent writer is the specification's FileEnc (reserved flag bits 0, data offset 9, stream id 0), expanded by harness/ld",
     ]
     sub = "flv"
@@ -35,6 +52,16 @@ def run(ctx):
     # ... although the round trip through the model's own demuxer is blind to them (these runs must pass)
     ctx.tlc(sub, "MC_FlvFile", "MC_FlvFile_blind.cfg", count_states=False)
     ctx.tlc(sub, "MC_FlvFile", "MC_FlvFile_blind_pts.cfg", count_states=False)
+    # the size sweep at model scale: every body size 0..20 (two-tag files), all interleavings ...
+    ctx.tlc(sub, "MC_FlvFile", "MC_FlvFile_sweep.cfg" if quick else "MC_FlvFile_sweep_thorough.cfg", timeout=800)
+    # ... non-vacuity: an implementation boundary (fast path through a 16-byte scratch whose guard forgets the 4 bytes of
+    # PreviousTagSize; wrong for 4 consecutive sizes only) in the muxer / in the demuxer must be reported ...
+    ctx.tlc(sub, "MC_FlvFile", "MC_FlvFile_muxscratch.cfg", expect_violation="Layout", count_states=False)
+    ctx.tlc(sub, "MC_FlvFile", "MC_FlvFile_demuxscratch.cfg", expect_violation="Framing", count_states=False)
+    if not quick:
+        # ... and is invisible on every size outside its window (these runs must pass): hence EVERY size is generated
+        ctx.tlc(sub, "MC_FlvFile", "MC_FlvFile_sweep_outside_mux.cfg", count_states=False)
+        ctx.tlc(sub, "MC_FlvFile", "MC_FlvFile_sweep_outside_demux.cfg", count_states=False)
 
     # GEN 1: whole files (value matrix) with the specification's bytes
     files = os.path.join(ctx.out, "files.ndjson")
@@ -49,6 +76,28 @@ def run(ctx):
             raise vlib.Broken("Gen_FlvFile simulation emitted only %d files" % s["cases"])
     res = ctx.replay("flvfile", files)
     ctx.judge("flvfile", files, res)
+
+    # GEN 1b: the dense size sweep (INIT ranges over the body size), same replayer
+    sweep = os.path.join(ctx.out, "sweep.ndjson")
+    cfg = "Gen_FlvSweep.%s.cfg" % ctx.tier
+    k = sweep_constants(os.path.join(vlib.SPEC, sub, cfg))
+    sizes = range(k["SweepMin"], k["SweepMax"] + 1)
+    want = sum((2 if n <= k["Sweep3Max"] else 1) * (4 if n <= k["DenseMax"] else 1) for n in sizes)
+    if k["SweepMin"] != 0 or k["SweepMax"] < (3 * 4096 + 64 if quick else 70000):
+        raise vlib.Broken("Gen_FlvSweep: the sweep must cover every body size 0..%d" % (3 * 4096 + 64 if quick else 70000))
+    gs = ctx.tlc(sub, "Gen_FlvSweep", cfg, cases_to=sweep, timeout=600)
+    if gs["cases"] != want:
+        raise vlib.Broken("Gen_FlvSweep emitted %d files, expected %d" % (gs["cases"], want))
+    seen = set()
+    for line in ctx.load_cases(sweep):
+        c = json.loads(line)
+        seen.add(c["tags"][{"sweep-ab": 0, "sweep-bab": 1}[c["fam"]]]["n"])   # the tag under test
+    if seen != set(sizes):
+        raise vlib.Broken("Gen_FlvSweep: %d body sizes of %d are missing" % (len(set(sizes) - seen), len(sizes)))
+    res = ctx.replay("flvsweep", sweep)
+    ctx.judge("flvsweep", sweep, res)
+    ctx.notes["sweep_cases"] = gs["cases"]
+    ctx.notes["sweep_sizes"] = "every body size %d..%d" % (k["SweepMin"], k["SweepMax"])
 
     # GEN 2: behaviours of the call-level state machine (TLC simulation, seeded), replayed step by step
     sched = os.path.join(ctx.out, "sched.ndjson")
